@@ -306,19 +306,24 @@ Definition item_key (i : item) : qname :=
    - are the nested tables of an inherited item list named in the package that declared them (or in the
      heir's package, a phantom copy: F30),
    - is a workspace reached twice below one direct ancestor just an ancestor (or a "circular reference": F31),
-   - may a GRANT name an inherited column (or only the table's own ones: F32).
+   - may a GRANT name an inherited column (or only the table's own ones: F32),
+   - does IWorkspace.Ancestors() enumerate the direct ancestors only, as pkg/appdef documents it (or all of
+     them, the indirect ones passed off as direct: F33).  The workspace items of the model carry the SET of
+     all ancestors (that is what scoping needs, and what the harness reports: the closure of Ancestors());
+     whether Ancestors() itself is the list the INHERITS clause names is a separate observation.
    `Ideal` is the spec; `Go` is the compiler as it is: every flag is read off the source by
    translator/parts/c17.py (Gen/Params.v); `GoBefore` is the compiler before all the repairs (kept for
    the conditional refutations). *)
 Record mode := Mode { m_uniq_per_type : bool; m_nested_inherit : bool; m_view_refs : bool; m_acl_repeat : bool;
                       m_res_pkg : bool; m_res_inh : bool; m_desc_refs : bool;
-                      m_nested_pkg : bool; m_diamond : bool; m_grant_inh : bool }.
-Definition Ideal : mode := Mode true true true false true true true true true true.
+                      m_nested_pkg : bool; m_diamond : bool; m_grant_inh : bool; m_direct_anc : bool }.
+Definition Ideal : mode := Mode true true true false true true true true true true true.
 Definition Go : mode := Mode parser_uniques_numbered_per_type parser_nested_tables_inherit parser_view_refs_recorded
                              (negb parser_inherited_grants_once) parser_lookup_respects_package parser_inherits_in_own_package
                              parser_descriptor_refs_analysed
-                             parser_inherited_nested_in_own_package parser_diamond_below_heir_accepted parser_grant_inherited_columns.
-Definition GoBefore : mode := Mode false false false true false false false false false false.
+                             parser_inherited_nested_in_own_package parser_diamond_below_heir_accepted parser_grant_inherited_columns
+                             parser_ancestors_direct.
+Definition GoBefore : mode := Mode false false false true false false false false false false false.
 
 Record pchecks := PChecks { ck_view_pk : bool; ck_grant_class : bool; ck_func_kinds : bool }.
 
@@ -511,10 +516,17 @@ Definition limit_item (pn : ident) (wq : qname) (l : limit) : item :=
 (* applyGrantOrRevokeRule: the rules one GRANT / REVOKE statement expands to.  A ... ON TABLE
    statement with an operation list yields one rule per distinct operation (Go map order; emitted
    here in enumeration order), the columns of a repeated operation are collected by `op_cols`. *)
-(* analyseGrantOrRevoke: an operation named with columns adds them to the operation's list, named
-   without columns it empties the list *)
-Definition op_cols (o : op) (acts : list (op * list string)) : list string :=
+(* analyseGrantOrRevoke: an operation named without columns means the whole table (no column list),
+   whatever column lists the same statement gives for it before or after; otherwise the lists are
+   concatenated.  Before d412e0d3e an operation named without columns only emptied the list collected so
+   far (`UPDATE, UPDATE(a)` gave [a]); the translator tells which of the two the source does. *)
+Definition op_cols_before (o : op) (acts : list (op * list string)) : list string :=
   fold_left (fun acc x => if op_eqb (fst x) o then match snd x with [] => [] | c => acc +++ c end else acc) acts [].
+Definition op_cols (o : op) (acts : list (op * list string)) : list string :=
+  if parser_grant_whole_table_wins
+  then if existsb (fun x => op_eqb (fst x) o && match snd x with [] => true | _ => false end) acts
+       then [] else flat_map (fun x => if op_eqb (fst x) o then snd x else []) acts
+  else op_cols_before o acts.
 Definition grant_all_ops : list op := [OInsert; OUpdate; OSelect].   (* norm of grantAllToTableOps *)
 Definition grant_rules (pn : ident) (wq : qname) (g : grant) : list rule :=
   let mk ops f fields := Rule (negb (g_revoke g)) ops f fields (resolve pn (g_role g)) in
@@ -1142,6 +1154,15 @@ Definition no_desc_ref_targets : bool :=
                      | Some fs => forallb (fun d => match d with DRef _ (_ :: _) _ => false | _ => true end) fs
                      | None => true end) all_ws.
 
+(* no workspace inherits a workspace that itself inherits: all ancestors are direct ones (the shape finding
+   F33 was about) *)
+Definition no_indirect_anc : bool :=
+  forallb (fun pw => forallb (fun q => match lookup_ws (resolve (p_name (fst pw)) q) with
+                                       | Some (_, w') => match w_inh w' with [] => true | _ => false end
+                                       | None => true end) (w_inh (snd pw))) all_ws.
+(* what a compiler of mode m shows for "Ancestors() = the workspaces INHERITS names" *)
+Definition direct_anc_shown (m : mode) : bool := m_direct_anc m || no_indirect_anc.
+
 (* a compiler of mode m accepts the well-formed schemas on which its builder does not panic; what a
    compiler with the old name resolution does on the two shapes above is not modelled (None here, and
    `agrees` abstains there: `go_abstains`) *)
@@ -1308,6 +1329,7 @@ Definition dump_match (aclc : list rule -> list rule -> bool) (expected observed
 
 Inductive outcome :=
   | Compiled (items : list item) (sys_unchanged : bool) (deterministic : bool)
+             (direct_anc : bool)   (* every workspace's Ancestors() is exactly what its INHERITS names (or sys.Workspace) *)
   | Rejected (panicked : bool).
 
 Record trace := Trace {
@@ -1323,7 +1345,8 @@ Definition agrees (t : trace) : bool :=
   texts_eqb (render (tr_ast t)) (tr_texts t)
   && (go_abstains (tr_ast t) ||
      match compile (tr_ast t) Go, tr_out t with
-     | Some d, Compiled obs sys_unchanged deterministic => dump_match acl_eqb d obs && sys_unchanged && deterministic
+     | Some d, Compiled obs sys_unchanged deterministic direct =>
+       dump_match acl_eqb d obs && sys_unchanged && deterministic && Bool.eqb direct (direct_anc_shown (tr_ast t) Go)
      | None, Rejected _ =>
        (* the model predicts the refusal, not whether the compiler reports an error or panics (the
           builder's panics are recovered in buildAppDefs since 2c1d463a7; C16 observes panics) *)
@@ -1337,7 +1360,7 @@ Definition agrees (t : trace) : bool :=
    appears once); what is not well-formed is not judged *)
 Definition satisfies (t : trace) : bool :=
   match compile (tr_ast t) Ideal, tr_out t with
-  | Some d, Compiled obs sys_unchanged deterministic => dump_match acl_eqb d obs && sys_unchanged && deterministic
+  | Some d, Compiled obs sys_unchanged deterministic direct => dump_match acl_eqb d obs && sys_unchanged && deterministic && direct
   | Some _, Rejected _ => false
   | None, _ => true
   end.
